@@ -3,6 +3,7 @@ import TenpyModel.C20.PropsCache
 import TenpyModel.C20.P2_NoErrInv
 import TenpyModel.C20.P2_Wf
 import TenpyModel.C20.P2_CacheLen
+import TenpyModel.C20.P2_Count
 /-!
 # C20 — property theorems, second part
 
@@ -103,6 +104,35 @@ theorem C20_threaded_reads_saved (prog : List Call) (maxsize : Nat) (s : St)
 example :
     (runWorkerFirst 600 (init [.save 0 1, .preload 0, .save 0 2, .load 0, .delete 0, .save 0 3, .load 0] 2 none)).reads
       = [(0, 3, some 3), (0, 2, some 2)] := by
+  decide
+
+/-- **Every call returns**: in a fault-free run of a program that only loads keys it saved, under
+every schedule, once the caller has entered `close` (in particular when `close` has completed) the
+whole program has been executed and there is exactly one output per call, each a normal return
+(`Out.ret`) — no call was skipped, none raised. -/
+theorem C20_threaded_all_calls_return (prog : List Call) (maxsize : Nat) (s : St)
+    (hwf : LoadsSaved prog) (h : Reach (init prog maxsize none) s)
+    (hc : s.mpc = .closeAlive ∨ s.mpc = .closeSetExit ∨ s.mpc = .closeTJoin ∨ s.mpc = .done) :
+    s.prog = [] ∧ s.outs.length = prog.length ∧ ∀ o ∈ s.outs, ∃ v, o = Out.ret v := by
+  have hne := C20_threaded_no_spurious_error prog maxsize s hwf h
+  have hcnt : InvCount prog.length s :=
+    invCount_reach (s0 := init prog maxsize none) ⟨Or.inr (by simp [init, inCall]), by simp [init, closing]⟩ h
+  have hcl : closing s.mpc := by rcases hc with h | h | h | h <;> simp [h, closing]
+  have hp := hcnt.cl hcl
+  refine ⟨hp, ?_, ?_⟩
+  · rcases hcnt.cnt with ⟨e, he⟩ | hn
+    · exact absurd he (hne e)
+    · have : inCall s.mpc = 0 := by rcases hc with h | h | h | h <;> simp [h, inCall]
+      rw [hp, this] at hn
+      simpa using hn
+  · intro o ho
+    cases o with
+    | ret v => exact ⟨v, rfl⟩
+    | err e => exact absurd ho (hne e)
+
+example :
+    let p : List Call := [.save 0 1, .preload 0, .save 0 2, .load 0, .delete 0, .save 0 3, .load 0]
+    (runMainFirst 400 (init p 1 none)).mpc = .done ∧ (runMainFirst 400 (init p 1 none)).outs.length = 7 := by
   decide
 
 end ThreadedPart
